@@ -35,7 +35,7 @@ func decodeTable(p *Prog, t types.Type) ([256]decodedFlag, error) {
 	st := envT.Underlying().(*types.Struct)
 	idx := map[string]int{}
 	for i := 0; i < st.NumFields(); i++ {
-		idx[st.Field(i).Name()] = i
+		idx[N(st.Field(i))] = i
 	}
 	for b := 0; b < 256; b++ {
 		args := []*fval{}
@@ -83,7 +83,7 @@ func encodeTable(p *Prog, t types.Type) ([4]int64, error) {
 	for i := 0; i < 4; i++ {
 		env := zeroOf(envT)
 		for j := 0; j < st.NumFields(); j++ {
-			switch st.Field(j).Name() {
+			switch N(st.Field(j)) {
 			case "compressed":
 				env.fields[j] = fBoolV(i&1 != 0)
 			case "trailer":
@@ -227,7 +227,7 @@ func checkFlagTables(c *Ctx, rule string) {
 					if sl, isSl := call.Common().Args[1].(*ssa.Slice); isSl {
 						if lo, isK := ConstInt(sl.Low); isK && lo == 1 && sl.High == nil {
 							if mname == "encodeEnvelope" {
-								if f := LoadedFieldOrField(call.Common().Args[2]); f != nil && f.Name() == "length" {
+								if f := LoadedFieldOrField(call.Common().Args[2]); f != nil && N(f) == "length" {
 									ok = true
 								}
 							} else {
